@@ -134,7 +134,27 @@ def replay(tid, beh, seed, scale=None):
 
 
 # --- T: programs drawn by the seeded rng, beyond the model's bounds ---------------------------------
+def reload_case(rng):
+    """load r := [p]; store [q] := x; store [s] := r (the LOADED value, through another pointer); another store;
+    reload [s] - with the first load and the first store really overlapping more often than not"""
+    n = rng.choice((1, 2, 4, 8))
+    cf = {"na": 0, "mt": 1, "en": rng.choice((1, 1, -1)), "mi": rng.choice((0, 1))}
+    names = ["p", "q", "s", "u"]
+    pv = {"p": 64, "q": 64 + rng.choice((0, 0, 0, 1, -1, n - 1, 1 - n, n, 16)), "s": 64 + rng.choice((12, 16, -12, n, 2 * n)),
+          "u": 64 + rng.choice((20, 12, 0, 13, -8))}
+    off = lambda: rng.choice((0, 0, 0, 1, -1, 2))
+    so = off()
+    prog = [{"o": "ld", "p": "p", "off": off(), "n": n, "dst": "r1"},
+            {"o": "st", "p": "q", "off": off(), "n": rng.choice((n, n, 1, 2)), "vk": rng.choice("dc"), "src": "d1"},
+            {"o": "st", "p": "s", "off": so, "n": n, "vk": "r", "src": "r1"},
+            {"o": "st", "p": rng.choice(("u", "u", "q", "p")), "off": off(), "n": rng.choice((1, 2, 4)), "vk": rng.choice("dc"), "src": "d2"},
+            {"o": "ld", "p": "s", "off": rng.choice((so, so, so + 1 if n > 1 else so)), "n": n if rng.random() < 0.8 else 1, "dst": "r2"}]
+    return scaled({"cf": cf, "pv": pv, "prog": prog}, rng, scale=1, base=0x1000 * rng.randint(1, 0x3FF))
+
+
 def random_case(rng, nptr=3, maxops=8):
+    if rng.random() < 0.25:
+        return reload_case(rng)
     names = ["p", "q", "s"][:nptr]
     cf = {"na": rng.choice((0, 0, 1)), "mt": 1, "en": rng.choice((1, -1)), "mi": rng.choice((0, 1))}
     if cf["na"]:
